@@ -28,7 +28,14 @@ package common
 //@ pred noNames(p *PortSet) = forall s string :: {s in p.NamedPorts} !(s in p.NamedPorts)
 //@ pred noExcl(p *PortSet) = forall s string :: {s in p.ExcludedNamedPorts} !(s in p.ExcludedNamedPorts)
 
+// a port set that no existing connection set holds can be built and updated without touching any connection set
+//@ pred psApart(t *ConnectionSet, p *PortSet) = forall q v1.Protocol :: {q in t.AllowedProtocols} q in t.AllowedProtocols ==> sepPS(t.AllowedProtocols[q], p)
+//@ pred csKeptApart(p *PortSet) = (forall t *ConnectionSet :: {t.AllowedProtocols} {old(wfCS(t))} (old(wfCS(t)) && old(psApart(t, p))) ==> (sameCS(t) && wfCS(t) && psApart(t, p)))
+//@   && (forall t *ConnectionSet, u *ConnectionSet :: {old(sep1CS(t, u))} (old(wfCS(t)) && old(wfCS(u)) && old(psApart(t, p)) && old(psApart(u, p)) && old(sep1CS(t, u))) ==> sep1CS(t, u))
+//@ pred freshApart(p *PortSet) = forall t *ConnectionSet :: {t.AllowedProtocols} {old(wfCS(t))} old(wfCS(t)) ==> psApart(t, p)
+
 //@ func MakePortSet
+//@   ensures [C11,C01] kept: allKept() && freshApart(res)
 //@   ensures [C11,C05] wf: wfPS(res) && freshPS(res)
 //@   ensures [C11,C05] nums: forall n int :: {iset(res.Ports)[n]} iset(res.Ports)[n] == (all && 1 <= n && n <= 65535)
 //@   ensures [C11] names: noNames(res) && noExcl(res)
@@ -62,6 +69,7 @@ package common
 
 //@ func (*PortSet).AddPort
 //@   requires wfPS(p)
+//@   ensures [C11,C01] apart: csKeptApart(p)
 //@   modifies p.NamedPorts[*], p.ExcludedNamedPorts[*], iset { r | r == p.Ports }
 //@   ensures [C11] wf: wfPS(p)
 //@   ensures [C11] named: port.Type == intstr.String ==> iset(p.Ports) == old(iset(p.Ports))
@@ -73,6 +81,7 @@ package common
 
 //@ func (*PortSet).RemovePort
 //@   requires wfPS(p)
+//@   ensures [C11,C01] apart: csKeptApart(p)
 //@   modifies p.NamedPorts[*], p.ExcludedNamedPorts[*], iset { r | r == p.Ports }
 //@   ensures [C11] wf: wfPS(p)
 //@   ensures [C11] named: port.Type == intstr.String ==> iset(p.Ports) == old(iset(p.Ports))
@@ -84,6 +93,7 @@ package common
 
 //@ func (*PortSet).AddPortRange
 //@   requires wfPS(p)
+//@   ensures [C11,C01] apart: csKeptApart(p)
 //@   modifies iset { r | r == p.Ports }
 //@   ensures [C11] wf: wfPS(p)
 //@   ensures [C11] nums: forall n int :: {iset(p.Ports)[n]} {old(iset(p.Ports)[n])} iset(p.Ports)[n] == (old(iset(p.Ports)[n]) || (minPort <= n && n <= maxPort))
